@@ -351,16 +351,40 @@ impl State {
 
     fn build_from_file(&mut self, path: Xstr, mode: ContextMode) -> Xresult {
         let s = crate::file::fs_overlay::read_source_file(&path)?;
-        self.context_open(mode)?;
-        self.intern_source(s.into(), Some(path))?;
-        self.build0()?;
-        self.context_close()
+        self.build_from(s.into(), Some(path), mode)
     }
 
     fn build_from_source(&mut self, s: Xstr, mode: ContextMode) -> Xresult {
+        self.build_from(s, None, mode)
+    }
+
+    fn build_from(&mut self, s: Xstr, path: Option<Xstr>, mode: ContextMode) -> Xresult {
+        let nested_len = self.nested.len();
+        let input_len = self.input.len();
+        let heap_len = self.heap.len();
+        let data_len = self.data_stack.len();
         self.context_open(mode)?;
-        self.intern_source(s, None)?;
-        self.build0()?;
+        let own = self.ctx.clone();
+        self.intern_source(s, path)?;
+        if let Err(e) = self.build0() {
+            // a rejected source leaves nothing behind: unread text, open contexts and control
+            // structures, half-compiled code and the definitions made so far are dropped
+            self.nested.truncate(nested_len + 1);
+            if let Some(prev) = self.nested.pop() {
+                self.ctx = prev;
+            }
+            self.input.truncate(input_len);
+            self.code.truncate(own.cs_len);
+            self.debug_map.truncate(own.cs_len);
+            self.flow_stack.truncate(own.fs_len);
+            self.return_stack.truncate(own.rs_len);
+            self.loops.truncate(own.ls_len);
+            self.special.truncate(own.ss_ptr);
+            self.dict.truncate(own.di_len);
+            self.heap.truncate(heap_len);
+            self.data_stack.truncate(data_len);
+            return Err(e);
+        }
         self.context_close()
     }
 
